@@ -1,17 +1,38 @@
 (* C13 runner: reads "<case>\t<impl observation>" lines (see rust/harness/src/bin/c13.rs for the
    formats), recomputes every observation with the extracted MODEL of pratt_parser.rs /
    prec_climber.rs (kind `model`) and, where the property speaks (all closures supplied, sequence
-   well-formed for the table; for the climber also: infix-only table, no rule declared twice, one
-   associativity per level), with the extracted shunting-yard SPECIFICATION (kind `spec`). *)
+   well-formed for the table; for the climbers also: infix-only table, no rule declared twice, one
+   associativity per level), with the extracted shunting-yard SPECIFICATION (kind `spec`).
+   Glue that is not extracted: parsing of the case syntax; a look-up cache in front of the extracted
+   `get` functions (same graph); for L cases the u32 precedences are replaced by their ranks (0 stays 0)
+   before the extracted functions run - model and specification only compare precedences
+   (TableProofs.shunt_relabel is the specification's half of that invariance). *)
 open Pratt_model
 open Runner_common
 
-let rec nat_of_int n = if n <= 0 then O else S (nat_of_int (n - 1))
+let nat_cache : (int, nat) Hashtbl.t = Hashtbl.create 1024
+let rec build_nat n = if n <= 0 then O else S (build_nat (n - 1))
+let nat_of_int n = match Hashtbl.find_opt nat_cache n with Some x -> x | None -> let x = build_nat n in Hashtbl.replace nat_cache n x; x
 let rec n2i = function O -> 0 | S n -> 1 + n2i n
-let rule_of_char c = nat_of_int (Char.code c - 97 + 1)
-let char_of_rule r = Char.chr (n2i r + 97 - 1)
 
-let atom ((r, i) : int tok) = Printf.sprintf "%c%d" (char_of_rule r) i
+(* T / N cases: letters (a..z -> 1..26, A..Z -> 27..52, any other byte -> 100 + code); W / L cases: the number itself *)
+let rule_of_char c =
+  let k = Char.code c in
+  nat_of_int (if k >= 97 && k <= 122 then k - 96 else if k >= 65 && k <= 90 then k - 64 + 26 else 100 + k)
+let char_of_rule r =
+  let k = n2i r in
+  Char.chr (if k >= 1 && k <= 26 then k + 96 else if k >= 27 && k <= 52 then k - 26 + 64 else k - 100)
+
+(* separate report budgets per kind, so that many differences from the model never hide a difference from the specification *)
+let reported : (string, int) Hashtbl.t = Hashtbl.create 4
+let report kind case impl expected =
+  incr mismatches;
+  let k = (match Hashtbl.find_opt reported kind with Some k -> k | None -> 0) + 1 in
+  Hashtbl.replace reported kind k;
+  if k <= max_report then Printf.printf "MISMATCH\t%s\t%s\t%s\t%s\n" kind case impl expected
+
+let wide = ref false
+let atom ((r, i) : int tok) = if !wide then Printf.sprintf "%d@%d" (n2i r) i else Printf.sprintf "%c%d" (char_of_rule r) i
 let rec show (t : int tree) = match t with
   | Leaf a -> atom a
   | Pre (o, t) -> Printf.sprintf "(%s %s)" (atom o) (show t)
@@ -23,14 +44,31 @@ let show_panic = function
 let show_res = function Ok (t, _) -> show t | Panic k -> show_panic k | OutOfFuel -> "!OUTOFFUEL"
 let show_cpanic = function CEmpty -> "!CEMPTY" | CFirst -> "!CFIRST" | CChain -> "!CCHAIN"
 
+(* the extracted `get` functions behind a cache (rule number -> answer) *)
+let cached (g : rule -> 'a option) : rule -> 'a option =
+  let h : (int, 'a option) Hashtbl.t = Hashtbl.create 64 in
+  fun r -> let k = n2i r in
+    match Hashtbl.find_opt h k with Some x -> x | None -> let x = g r in Hashtbl.replace h k x; x
+
 let affix_of_char = function 'p' -> Prefix | 'q' -> Postfix | 'l' -> Infix ALeft | _ -> Infix ARight
 let parse_ops (s : string) : opdecl list =
   let rec go i = if i + 1 < String.length s then (rule_of_char s.[i], affix_of_char s.[i + 1]) :: go (i + 2) else [] in
   go 0
 let level_of_ops = function [] -> None | o :: rest -> Some ((o, rest) : level)
+let nonempty l = List.filter (fun x -> x <> "") l
 let parse_decl (s : string) : decl =
-  List.filter_map (fun l -> level_of_ops (parse_ops l)) (List.filter (fun l -> l <> "") (String.split_on_char ',' s))
+  List.filter_map (fun l -> level_of_ops (parse_ops l)) (nonempty (String.split_on_char ',' s))
 let parse_tokens (s : string) : int tok list = List.init (String.length s) (fun i -> (rule_of_char s.[i], i))
+(* W syntax: <number><kind> joined by '.', levels by ',' ; tokens numbers joined by '.' *)
+let parse_wide_op (s : string) : opdecl option =
+  let l = String.length s in
+  if l < 2 then None else
+  match int_of_string_opt (String.sub s 0 (l - 1)) with
+  | Some n -> Some (nat_of_int n, affix_of_char s.[l - 1]) | None -> None
+let parse_wide_decl (s : string) : decl =
+  List.filter_map (fun l -> level_of_ops (List.filter_map parse_wide_op (String.split_on_char '.' l))) (nonempty (String.split_on_char ',' s))
+let parse_wide_tokens (s : string) : int tok list =
+  List.mapi (fun i n -> (nat_of_int n, i)) (List.filter_map int_of_string_opt (String.split_on_char '.' s))
 let parse_maps (s : string) : maps =
   let b i = String.length s > i && s.[i] = '1' in { m_prefix = b 0; m_postfix = b 1; m_infix = b 2 }
 
@@ -43,21 +81,99 @@ let cdecl_of (d : decl) : cdecl =
 let total_ops (d : decl) = List.fold_left (fun n lv -> n + List.length (chain lv)) 0 d
 
 (* side conditions of the climber clause, decided on the declaration *)
-let climber_class (d : decl) : bool =
+let infix_uniform (d : decl) : bool =
   let all = List.concat_map chain d in
   let infix_only = List.for_all (fun (_, af) -> match af with Infix _ -> true | _ -> false) all in
-  let rules = List.map (fun (r, _) -> n2i r) all in
-  let nodup = List.length (List.sort_uniq compare rules) = List.length rules in
   let uniform = List.for_all (fun lv -> match chain lv with [] -> true | (_, a) :: rest -> List.for_all (fun (_, b) -> a = b) rest) d in
-  infix_only && nodup && uniform
+  infix_only && uniform
+let climber_class (d : decl) : bool =
+  let rules = List.map (fun (r, _) -> n2i r) (List.concat_map chain d) in
+  infix_uniform d && List.length (List.sort_uniq compare rules) = List.length rules
+
+(* harness: run_const_array pads arrays with more than 40 entries to the next available length *)
+let padded_len n = if n <= 40 then n else (match List.find_opt (fun s -> n <= s) [48; 64; 100; 130; 260; 300; 520] with Some s -> s | None -> 0)
+let rec last = function [] -> None | [x] -> Some x | _ :: r -> last r
+let pad (entries : (level * bool) list) : (level * bool) list option =
+  let n = List.length entries in
+  let len = padded_len n in
+  if n = 0 || len = 0 then None else
+  match last entries with
+  | None -> None
+  | Some (lv, _) -> Some (entries @ List.init (len - n) (fun _ -> (lv, false)))
+
+(* C: which shapes the harness can write with pratt_precedence! *)
+let macro_shape (d : decl) : bool =
+  let shape = List.map (fun lv -> List.length (chain lv)) d in
+  let tot = total_ops d and nl = List.length d in
+  if tot >= 1 && tot <= 5 then true
+  else if List.for_all (fun k -> k = 1) shape then (nl >= 6 && nl <= 64) || nl = 100 || nl = 260 || nl = 300
+  else if List.for_all (fun k -> k = 2) shape then nl >= 3 && nl <= 40
+  else false
 
 let field obs key =
-  (* obs = "P=..;C=..;N=..;K=.." *)
+  (* obs = "P=..;C=..;N=..;.." *)
   let parts = String.split_on_char ';' obs in
   let pre = key ^ "=" in
   match List.find_opt (fun p -> String.length p >= String.length pre && String.sub p 0 (String.length pre) = pre) parts with
   | Some p -> String.sub p (String.length pre) (String.length p - String.length pre)
   | None -> "?"
+
+(* everything that depends on the declaration only, computed once per run of equal declarations *)
+type tables = {
+  d : decl; bt : table; c_run : (maps -> int tok list -> string) option; n_run : (maps -> int tok list -> string) option;
+  k_get : (rule -> (prec * assoc) option) option; s_get : (rule -> (prec * assoc) option) option; r_get : (rule -> (prec * assoc) option) option;
+  m_get : (rule -> (prec * assoc) option) option; cclass : bool }
+let const_runner (entries : (level * bool) list) : maps -> int tok list -> string =
+  match new_const entries with
+  | Inl ct -> let g = cached (const_get ct) in fun m ts -> show_res (pratt_parse m g ts)
+  | Inr e -> let s = show_cpanic e in fun _ _ -> s
+let make_tables (d : decl) : tables =
+  let bt = cached (builder_get (builder_table d)) in
+  let entries = macro_expand d in
+  let c_run = if macro_shape d then Some (const_runner entries) else None in
+  let n_run = match pad entries with Some e -> Some (const_runner e) | None -> None in
+  let cd = cdecl_of d in
+  let k_get, s_get, r_get =
+    if cd = [] then None, None, None else
+    let c = climber_new cd in
+    Some (cached (climber_get c)), Some (cached (climber_get (climber_new_const c))), Some (cached (climber_get (climber_new_const (List.rev c)))) in
+  let m_get =
+    if cd <> [] && infix_uniform d then
+      let md = List.map (fun ((o, rest) : clevel) -> (snd o, (fst o, List.map fst rest))) cd in
+      Some (cached (climber_get (climber_macro md)))
+    else None in
+  { d; bt; c_run; n_run; k_get; s_get; r_get; m_get; cclass = climber_class d }
+let cache_key = ref "" and cache_val : tables option ref = ref None
+let tables_of (key : string) (mk : unit -> decl) : tables =
+  match !cache_val with
+  | Some t when !cache_key = key -> t
+  | _ -> let t = make_tables (mk ()) in cache_key := key; cache_val := Some t; t
+
+let table_case case impl maps_s key (mk : unit -> decl) (ts : int tok list) =
+  let t = tables_of key mk in
+  let m = parse_maps maps_s in
+  let all_m = m.m_prefix && m.m_postfix && m.m_infix in
+  let p = show_res (pratt_parse m t.bt ts) in
+  let opt r = match r with Some f -> f m ts | None -> "-" in
+  let c = opt t.c_run and nn = opt t.n_run in
+  let cl g = match g with Some g -> show_res (climb g ts) | None -> "-" in
+  let k = cl t.k_get and s = cl t.s_get and r = cl t.r_get in
+  (* M: the harness has a fixed family of prec_climber! invocations; `-` = this table is not one of them *)
+  let mm = if field impl "M" = "-" then "-" else (match t.m_get with Some g -> show_res (climb g ts) | None -> "!NOT-A-MACRO-TABLE") in
+  let model = Printf.sprintf "P=%s;C=%s;N=%s;K=%s;S=%s;R=%s;M=%s" p c nn k s r mm in
+  (* the specification *)
+  let wf = well_formed t.bt ts in
+  let spec_bad =
+    if all_m && wf then begin
+      let sp = match shunt t.bt ts with Some t -> show t | None -> "!SPEC-NONE" in
+      let bad key = let v = field impl key in v <> "-" && v <> sp in
+      let bad_list = List.filter bad (if t.cclass then ["P"; "C"; "N"; "K"; "S"; "R"; "M"] else ["P"; "C"; "N"]) in
+      if bad_list <> [] then Some (sp, bad_list) else None
+    end else None in
+  match spec_bad with
+  | Some (sp, bad_list) ->
+    report "spec" case impl (Printf.sprintf "shunt=%s%s differs: %s" sp (if t.cclass then " (P,C,N,K,S,R,M)" else " (P,C,N)") (String.concat "," bad_list))
+  | None -> if impl <> model then report "model" case impl model
 
 let () =
   let n = ref 0 in
@@ -68,32 +184,13 @@ let () =
       incr n;
       (match String.split_on_char ';' case with
        | ["T"; maps_s; decl_s; toks_s] ->
-         let d = parse_decl decl_s and ts = parse_tokens toks_s and m = parse_maps maps_s in
-         let all_m = m.m_prefix && m.m_postfix && m.m_infix in
-         let bt = builder_get (builder_table d) in
-         let p = show_res (pratt_parse m bt ts) in
-         let const_run () = match new_const (macro_expand d) with
-           | Inl ct -> show_res (pratt_parse m (const_get ct) ts)
-           | Inr e -> show_cpanic e in
-         let tot = total_ops d in
-         let c = if tot >= 1 && tot <= 5 then const_run () else "-" in
-         let nn = if tot >= 1 && tot <= 8 then const_run () else "-" in
-         let cd = cdecl_of d in
-         let k = if cd = [] then "-" else show_res (climb (climber_get (climber_new cd)) ts) in
-         let model = Printf.sprintf "P=%s;C=%s;N=%s;K=%s" p c nn k in
-         (* the specification *)
-         let wf = well_formed bt ts in
-         let spec_bad =
-           if all_m && wf then begin
-             let s = match shunt bt ts with Some t -> show t | None -> "!SPEC-NONE" in
-             let bad key = let v = field impl key in v <> "-" && v <> s in
-             let kbad = climber_class d && (let v = field impl "K" in v <> "-" && v <> s) in
-             if bad "P" || bad "C" || bad "N" || kbad then Some s else None
-           end else None in
-         (match spec_bad with
-          | Some s -> report "spec" case impl (Printf.sprintf "shunt=%s%s" s (if climber_class d then " (P,C,N,K)" else " (P,C,N)"))
-          | None -> if impl <> model then report "model" case impl model)
+         wide := false;
+         table_case case impl maps_s ("T" ^ decl_s) (fun () -> parse_decl decl_s) (parse_tokens toks_s)
+       | ["W"; maps_s; decl_s; toks_s] ->
+         wide := true;
+         table_case case impl maps_s ("W" ^ decl_s) (fun () -> parse_wide_decl decl_s) (parse_wide_tokens toks_s)
        | ["N"; maps_s; entries_s; toks_s] ->
+         wide := false;
          let ts = parse_tokens toks_s and m = parse_maps maps_s in
          let entries = List.filter_map (fun e ->
              let l = String.length e in
@@ -112,6 +209,34 @@ let () =
             if all_m && well_formed g ts && (match shunt g ts with Some t -> "N=" ^ show t <> impl | None -> true)
             then report "spec" case impl (match shunt g ts with Some t -> "shunt=" ^ show t | None -> "!SPEC-NONE")
             else if impl <> model then report "model" case impl model)
+       | ["L"; entries_s; toks_s] ->
+         wide := true;
+         let ts = parse_wide_tokens toks_s in
+         let raw = List.filter_map (fun e ->
+             match String.index_from_opt e 0 'l', String.index_from_opt e 0 'r' with
+             | None, None -> None
+             | a, b ->
+               let i = (match a, b with Some i, None | None, Some i -> i | Some i, Some j -> min i j | None, None -> 0) in
+               (match int_of_string_opt (String.sub e 0 i), int_of_string_opt (String.sub e (i + 1) (String.length e - i - 1)) with
+                | Some r, Some p -> Some (r, (if e.[i] = 'l' then ALeft else ARight), p) | _ -> None))
+             (nonempty (String.split_on_char ',' entries_s)) in
+         if raw = [] then (if impl <> "S=-" then report "model" case impl "S=-") else begin
+           (* ranks of the precedence values: 0 stays 0, the others 1, 2, .. in increasing order *)
+           let vals = List.sort_uniq compare (List.filter (fun p -> p <> 0) (List.map (fun (_, _, p) -> p) raw)) in
+           let rank p = if p = 0 then 0 else 1 + (let rec idx i = function [] -> 0 | x :: r -> if x = p then i else idx (i + 1) r in idx 0 vals) in
+           let c : climber = List.map (fun (r, a, p) -> (nat_of_int r, (nat_of_int (rank p), a))) raw in
+           let g = cached (climber_get (climber_new_const c)) in
+           let model = "S=" ^ show_res (climb g ts) in
+           let rules = List.map (fun (r, _, _) -> r) raw in
+           let nodup = List.length (List.sort_uniq compare rules) = List.length rules in
+           let uniform = List.for_all (fun (_, a, p) -> List.for_all (fun (_, a2, p2) -> p <> p2 || a = a2) raw) raw in
+           let pos = List.for_all (fun (_, _, p) -> p >= 1) raw in
+           let tb = table_of g in
+           if nodup && uniform && pos && well_formed tb ts
+              && (match shunt tb ts with Some t -> "S=" ^ show t <> impl | None -> true)
+           then report "spec" case impl (match shunt tb ts with Some t -> "shunt=" ^ show t | None -> "!SPEC-NONE")
+           else if impl <> model then report "model" case impl model
+         end
        | _ -> report "model" case impl "BADCASE")
     | _ -> ());
   Printf.printf "#RUNNER\tcases=%d\tmismatches=%d\n" !n !mismatches
